@@ -11,24 +11,27 @@ Bd(d) == [k |-> "bd", d |-> d]
 Thin == {Par(V2(-10, -2), V2(10, -2), V2(-10, -1)), Par(<<A1(-8, "t"), A0(-4)>>, <<A1(-7, "t"), A0(-4)>>, <<A1(-8, "t"), A0(8)>>)}     \* aspect ratios 20 and 12
 \* the origin moves while the other corners stay: position and shape change together
 Shear == {Par(<<A1(0, "t"), A0(0)>>, V2(12, 0), V2(4, 4)), Tri(<<A1(-8, "k"), A0(-4)>>, V2(8, -4), V2(0, 8))}
-Basics == Prims2 \cup Ints \cup {Sph, SphT, Pt, PtT} \cup Thin \cup Shear
-Bds == {Bd(p) : p \in Prims2 \cup Ints \cup {Sph, SphT}} \cup {[k |-> "bdl", d |-> i] : i \in Ints} \cup {[k |-> "bdr", d |-> i] : i \in Ints}
+Basics == Prims2 \cup Ints \cup {Sph, SphT, Pt, PtT} \cup Thin \cup Shear \cup Polys \cup Meshes \cup {MeshBox}
+Bds == {Bd(p) : p \in Prims2 \cup Ints \cup {Sph, SphT} \cup Polys \cup Meshes} \cup {[k |-> "bdl", d |-> i] : i \in Ints} \cup {[k |-> "bdr", d |-> i] : i \in Ints}
 Envs == {[t |-> a, k |-> b] : a \in 0..2, b \in 0..2}
 Lat2 == {-896 + 96 * i + 7 : i \in 0..18}
 EnvsOf(a, b) == IF FreeVars(a) \cup FreeVars(b) = {} THEN {[t |-> 0, k |-> 0]} ELSE Envs
 QAt(env, x, y) == [val |-> [nm \in {"x", "t", "k"} |-> IF nm = "x" THEN <<x, y>> ELSE <<env[nm] * F>>], w |-> 1]
 DisjointOn(a, b) == \A env \in EnvsOf(a, b) : \A p \in Lat2 \X Lat2 : ~(In(a, QAt(env, p[1], p[2])) /\ In(b, QAt(env, p[1], p[2])))
 ContainedOn(b, a) == \A env \in EnvsOf(a, b) : \A p \in Lat2 \X Lat2 : In(b, QAt(env, p[1], p[2])) => In(a, QAt(env, p[1], p[2]))
-Small2 == {p \in Prims2 : FreeVars(p) = {}}
+Small2 == {p \in Prims2 : FreeVars(p) = {}} \cup Polys
 DisjU == {[k |-> "union", l |-> a, r |-> b, disjoint |-> TRUE] : a \in Small2, b \in {Tr(q, V2(-12, -12)) : q \in Small2}}
          \cup {[k |-> "union", l |-> Par(V2(4, 4), V2(8, 4), V2(4, 8)), r |-> Cir(<<A0(-8), A1(-8, "t")>>, A1(1, "k")), disjoint |-> TRUE]}   \* parameter-dependent, declared disjoint
 ContC == {[k |-> "cut", l |-> a, r |-> b, contained |-> TRUE] : a \in {Par(V2(-12, -12), V2(12, -12), V2(-12, 12))}, b \in Small2}
          \cup {[k |-> "cut", l |-> Cir(V2(0, 0), A1(8, "k")), r |-> Cir(<<A0(1), A0(0)>>, A0(6)), contained |-> TRUE]}
-Transf == {Tr(a, t) : a \in Prims2 \cup {Bd(p) : p \in Prims2}, t \in TransVecs}
-          \cup {Ro(a, m, p) : a \in Prims2 \cup {Bd(q) : q \in Prims2}, m \in {"r90", "p345", "p51213"}, p \in RotPts}
-Prods == {Pr(a, i) : a \in Prims2, i \in Ints} \cup {Pr(i, [k |-> "interval", v |-> "z", lo |-> A0(0), hi |-> A0(6)]) : i \in Ints}
-AttrExprs == IF Mode = "vol" THEN Basics \cup Bds \cup Transf \cup Prods \cup {u \in DisjU : DisjointOn(u.l, u.r)} \cup {c \in ContC : ContainedOn(c.r, c.l)}
-             ELSE Basics \cup Bds \cup Transf \cup Prods \cup {x \in Depth1 : x.k \notin {"union", "cut", "and"} \/ x.l # x.r}
+Transf == {Tr(a, t) : a \in PrimsG \cup {Bd(p) : p \in PrimsG}, t \in TransVecs}
+          \cup {Ro(a, m, p) : a \in PrimsG \cup {Bd(q) : q \in PrimsG}, m \in {"r90", "p345", "p51213"}, p \in RotPts}
+TransfQ == RotQ1 \cup Rot3D1 \cup {Roq(Bd(p), an, V2(2, -4)) : p \in {Par(V2(-8, -6), V2(4, -2), V2(-4, 6)), Cir(<<A1(-4, "t"), A0(0)>>, A1(2, "k")), Poly(<<RingL>>)}, an \in {"t", "k"}}
+           \cup {Ro3(Bd(p), m, V3(2, -4, 2)) : p \in {MeshBox, Sph}, m \in {"z345", "zx"}}
+Prods == {Pr(a, i) : a \in PrimsG, i \in Ints} \cup {Pr(i, m) : i \in Ints, m \in {MeshTet}} \cup {Pr(i, [k |-> "interval", v |-> "z", lo |-> A0(0), hi |-> A0(6)]) : i \in Ints}
+AttrExprs == IF Mode = "vol" THEN Basics \cup Bds \cup Transf \cup TransfQ \cup Prods \cup {u \in DisjU : DisjointOn(u.l, u.r)} \cup {c \in ContC : ContainedOn(c.r, c.l)}
+             ELSE Basics \cup Bds \cup Transf \cup TransfQ \cup Prods \cup {x \in Depth1 : x.k \notin {"union", "cut", "and"} \/ x.l # x.r}
+                  \cup PolyD1 \cup MeshD1
                   \cup {u \in DisjU : FreeVars(u) # {} /\ DisjointOn(u.l, u.r)} \cup {c \in ContC : FreeVars(c) # {} /\ ContainedOn(c.r, c.l)}
 Rows == <<[t |-> 0, k |-> 1], [t |-> 2, k |-> 0], [t |-> 1, k |-> 2]>>
 BindVals == <<[t |-> 1, k |-> 2], [t |-> 2, k |-> 0]>>
